@@ -89,6 +89,13 @@ pub struct PairRun {
 }
 
 pub fn run_pairs(base: &str, ops: &[PairOp]) -> Result<PairRun, String> {
+    let qops: Vec<(usize, PairOp)> = ops.iter().cloned().enumerate().collect();
+    run_pairs_q(base, &qops)
+}
+
+/// the calls carry their own payload number `q` (so that a history with some calls removed writes
+/// the same payloads in the calls that remain)
+pub fn run_pairs_q(base: &str, ops: &[(usize, PairOp)]) -> Result<PairRun, String> {
     let (shp, shx, dbf) = (LogDst::new(), LogDst::new(), LogDst::new());
     let (s2, x2, d2) = (shp.clone(), shx.clone(), dbf.clone());
     let base = base.to_string();
@@ -100,8 +107,9 @@ pub fn run_pairs(base: &str, ops: &[PairOp]) -> Result<PairRun, String> {
             .build_with_dest(d2);
         let mut w = Writer::new(ShapeWriter::with_shx(s2, x2), table);
         let mut results = vec![];
-        for (q, op) in ops.iter().enumerate() {
-            let shape = if *op == PairOp::WrongShape && q > 0 { other_shape(&base, q) } else { shape_for(&base, q) };
+        for (pos, (q, op)) in ops.iter().enumerate() {
+            let q = *q;
+            let shape = if *op == PairOp::WrongShape && pos > 0 { other_shape(&base, q) } else { shape_for(&base, q) };
             let row = row_for(*op, q);
             let r = crate::with_any!(&shape, s => w.write_shape_and_record(s, &row));
             results.push(match r {
@@ -248,6 +256,228 @@ pub fn oracle_c08_path(n: usize) -> Verdict {
     }
 }
 
+/// C10 through the complete writer: a call rejected for its shape type leaves no trace in any of the
+/// three files — they equal those of the history without the rejected calls
+pub fn oracle_c10_pairs(base: &str, ops: &[PairOp]) -> Verdict {
+    let full: Vec<(usize, PairOp)> = ops.iter().cloned().enumerate().collect();
+    let kept: Vec<(usize, PairOp)> = full.iter().cloned().filter(|(pos, op)| !(*op == PairOp::WrongShape && *pos > 0)).collect();
+    let a = match run_pairs_q(base, &full) {
+        Ok(r) => r,
+        Err(e) => return Verdict::fail("rejected-pair-panic", e),
+    };
+    let b = match run_pairs_q(base, &kept) {
+        Ok(r) => r,
+        Err(e) => return Verdict::fail("rejected-pair-panic", e),
+    };
+    for (pos, op) in ops.iter().enumerate() {
+        let rejected = *op == PairOp::WrongShape && pos > 0;
+        let r = &a.results[pos];
+        if rejected && !(r.starts_with("err mismatch") || r.contains("Mismatch") || r.contains("mismatch")) {
+            return Verdict::fail("rejected-pair-result", format!("call {} offered another shape type and returned {}", pos, r));
+        }
+        if !rejected && r != "ok" {
+            return Verdict::fail("rejected-pair-result", format!("call {} returned {}", pos, r));
+        }
+    }
+    let mask = |d: &Vec<u8>| {
+        let mut d = d.clone();
+        for i in 1..4.min(d.len()) {
+            d[i] = 0; // the dbf header's last-update date
+        }
+        d
+    };
+    for (name, x, y) in [("shp", &a.shp, &b.shp), ("shx", &a.shx, &b.shx), ("dbf", &mask(&a.dbf), &mask(&b.dbf))] {
+        if x != y {
+            return Verdict::fail("rejected-pair-left-trace", format!("history {:?}: the .{} differs from the one of the history without the rejected calls ({} vs {} bytes)", ops.iter().map(|o| o.tok()).collect::<Vec<_>>(), name, x.len(), y.len()));
+        }
+    }
+    Verdict::pass()
+}
+
+pub fn cases_dbf_c10(tier: &str, stats: &mut Stats, out: &mut Out) {
+    let max_len = if tier == "thorough" { 7 } else { 5 };
+    for base in ["Point", "PointZ", "Polyline"] {
+        for len in 1..=max_len {
+            for idx in 0..(1usize << (len - 1)) {
+                // the first call is a good pair, the others are good or of another shape type
+                let mut ops = vec![PairOp::Good];
+                for k in 0..(len - 1) {
+                    ops.push(if (idx >> k) & 1 == 1 { PairOp::WrongShape } else { PairOp::Good });
+                }
+                stats.hit(&format!("pairs10.len.{}", len));
+                let c = Case::DbfHist { base: base.to_string(), ops: ops.clone() };
+                let (id, _res) = out.case(&c);
+                out.verdict(&id, &crate::cases::show_case(&c), oracle_c10_pairs(base, &ops));
+            }
+        }
+    }
+}
+
+/// C15 on the complete Reader: seek(k) / iterate j pairs in any order — every pair yielded holds the
+/// shape and the row written together, an iteration after seek(k) starts at k, any iteration yields
+/// consecutive records (from the position reached, or from the first) and never more than exist
+pub fn oracle_c15_pairs(base: &str, n: usize, ops: &[(char, usize)]) -> Verdict {
+    let good: Vec<PairOp> = (0..n).map(|_| PairOp::Good).collect();
+    let run = match run_pairs(base, &good) {
+        Ok(r) => r,
+        Err(e) => return Verdict::fail("reader-pairs-panic", e),
+    };
+    let r = catch_unwind(AssertUnwindSafe(|| -> Result<(), String> {
+        let sr = ShapeReader::with_shx(Cursor::new(run.shp.clone()), Cursor::new(run.shx.clone())).map_err(|e| show_err(&e))?;
+        let dr = dbase::Reader::new(Cursor::new(run.dbf.clone())).map_err(|e| format!("dbase {:?}", e))?;
+        let mut rdr = Reader::new(sr, dr);
+        let mut cursor: Option<usize> = Some(0); // where the next iteration is expected to start
+        for (step, (op, k)) in ops.iter().enumerate() {
+            match op {
+                's' => {
+                    rdr.seek(*k).map_err(|e| format!("step {}: seek({}) failed: {}", step, k, show_err(&e)))?;
+                    cursor = Some((*k).min(n));
+                }
+                _ => {
+                    let mut got: Vec<(usize, usize)> = vec![];
+                    for item in rdr.iter_shapes_and_records().take(*k) {
+                        let (s, row) = item.map_err(|e| format!("step {}: iteration failed: {}", step, show_err(&e)))?;
+                        let q = shape_q(&s).ok_or("unexpected shape")?;
+                        let idx = match row.get("idx") {
+                            Some(dbase::FieldValue::Numeric(Some(v))) => *v as usize,
+                            other => return Err(format!("row without idx: {:?}", other)),
+                        };
+                        got.push((q, idx));
+                    }
+                    if let Some((q, idx)) = got.iter().find(|(q, idx)| q != idx) {
+                        return Err(format!("step {} of {:?}: shape {} came with row {} (pairs {:?})", step, ops, q, idx, got));
+                    }
+                    if let Some(first) = got.first() {
+                        let starts_ok = Some(first.0) == cursor || first.0 == 0;
+                        let after_seek = step > 0 && ops[step - 1].0 == 's';
+                        if !starts_ok || (after_seek && Some(first.0) != cursor) {
+                            return Err(format!("step {} of {:?}: iteration started at record {}, expected {:?}", step, ops, first.0, cursor));
+                        }
+                    } else if *k > 0 {
+                        // nothing yielded: only right when the position is at the end
+                        let after_seek = step > 0 && ops[step - 1].0 == 's';
+                        if after_seek && cursor.map(|c| c < n).unwrap_or(false) {
+                            return Err(format!("step {} of {:?}: nothing yielded after seek to {:?} of {}", step, ops, cursor, n));
+                        }
+                    }
+                    for w in got.windows(2) {
+                        if w[1].0 != w[0].0 + 1 {
+                            return Err(format!("step {} of {:?}: records out of order: {:?}", step, ops, got));
+                        }
+                    }
+                    if got.len() > n {
+                        return Err(format!("step {}: {} pairs from a file of {}", step, got.len(), n));
+                    }
+                    if let Some(last) = got.last() {
+                        cursor = Some(last.0 + 1);
+                    }
+                }
+            }
+        }
+        Ok(())
+    }));
+    match r {
+        Ok(Ok(())) => Verdict::pass(),
+        Ok(Err(e)) => Verdict::fail("reader-pairs-misaligned", e),
+        Err(e) => Verdict::fail("reader-pairs-panic", panic_msg(&e)),
+    }
+}
+
+pub fn cases_pairs_c15(tier: &str, stats: &mut Stats, out: &mut Out) {
+    let n = 4usize;
+    let mut alphabet: Vec<(char, usize)> = vec![('i', 0), ('i', 1), ('i', 2), ('i', 99)];
+    for k in 0..=n {
+        alphabet.push(('s', k));
+    }
+    let max_len = if tier == "thorough" { 4 } else { 3 };
+    for base in ["Point", "Polyline"] {
+        for len in 1..=max_len {
+            let total = alphabet.len().pow(len as u32);
+            for idx in 0..total {
+                let mut x = idx;
+                let ops: Vec<(char, usize)> = (0..len)
+                    .map(|_| {
+                        let o = alphabet[x % alphabet.len()];
+                        x /= alphabet.len();
+                        o
+                    })
+                    .collect();
+                stats.hit(&format!("pairs15.len.{}", len));
+                let id = out.oracle_only_id();
+                let txt: Vec<String> = ops.iter().map(|(c, k)| format!("{}{}", c, k)).collect();
+                out.verdict(&id, &format!("scenario reader-pairs {} {} {}", base, n, txt.join(" ")), oracle_c15_pairs(base, n, &ops));
+            }
+        }
+    }
+}
+
+/// replay of the scenarios above
+pub fn oracle_scenario_dbf(prop: &str, a: &[String]) -> Option<Verdict> {
+    match (prop, a.first().map(|s| s.as_str())) {
+        ("C08", Some("path-pairs")) => Some(oracle_c08_path(a.get(1)?.parse().ok()?)),
+        ("C08", Some("path-names")) => Some(oracle_c08_path_names(a.get(1)?, a.get(2)?)),
+        ("C15", Some("reader-pairs")) => {
+            let base = a.get(1)?;
+            let n: usize = a.get(2)?.parse().ok()?;
+            let mut ops = vec![];
+            for t in &a[3..] {
+                let c = t.chars().next()?;
+                ops.push((c, t[1..].parse().ok()?));
+            }
+            Some(oracle_c15_pairs(base, n, &ops))
+        }
+        _ => None,
+    }
+}
+
+/// by path, file names: the three files of a dataset share the .shp's stem, whatever it contains
+pub fn oracle_c08_path_names(stem_a: &str, stem_b: &str) -> Verdict {
+    let base = std::env::var("VERIF_WORK").unwrap_or_else(|_| "/verif/work".into());
+    let dir = std::path::PathBuf::from(base).join(format!("hn{}", std::process::id()));
+    std::fs::create_dir_all(&dir).unwrap();
+    let write = |stem: &str, n: usize| -> Result<(), String> {
+        let table = dbase::TableWriterBuilder::new().add_numeric_field("idx".try_into().unwrap(), 10, 0).add_character_field("name".try_into().unwrap(), 10);
+        let mut w = Writer::from_path(dir.join(format!("{}.shp", stem)), table).map_err(|e| show_err(&e))?;
+        for q in 0..n {
+            w.write_shape_and_record(&Point::new(q as f64, 0.5), &row_for(PairOp::Good, q)).map_err(|e| show_err(&e))?;
+        }
+        Ok(())
+    };
+    let check = |stem: &str, n: usize| -> Result<(), String> {
+        for ext in ["shp", "shx", "dbf"] {
+            let f = dir.join(format!("{}.{}", stem, ext));
+            if !f.exists() {
+                return Err(format!("{}.{} was not produced next to the .shp", stem, ext));
+            }
+        }
+        let pairs = shapefile::read(dir.join(format!("{}.shp", stem))).map_err(|e| format!("{}: {}", stem, show_err(&e)))?;
+        if pairs.len() != n {
+            return Err(format!("{}.shp: {} pairs read, {} written", stem, pairs.len(), n));
+        }
+        for (i, (s, row)) in pairs.iter().enumerate() {
+            let q = shape_q(s).ok_or("unexpected shape")?;
+            match row.get("idx") {
+                Some(dbase::FieldValue::Numeric(Some(v))) if *v as usize == i && q == i => {}
+                other => return Err(format!("{}: pair {}: shape {} row {:?}", stem, i, q, other)),
+            }
+        }
+        Ok(())
+    };
+    let r = catch_unwind(AssertUnwindSafe(|| -> Result<(), String> {
+        write(stem_a, 2)?;
+        write(stem_b, 4)?;
+        check(stem_b, 4)?;
+        check(stem_a, 2)?;
+        Ok(())
+    }));
+    let _ = std::fs::remove_dir_all(&dir);
+    match r {
+        Ok(Ok(())) => Verdict::pass(),
+        Ok(Err(e)) => Verdict::fail("pairs-path-names", e),
+        Err(e) => Verdict::fail("pairs-path-panic", panic_msg(&e)),
+    }
+}
+
 pub fn cases_dbf(tier: &str, rng: &mut Rng, stats: &mut Stats, out: &mut Out) {
     let max_len = if tier == "thorough" { 6 } else { 4 };
     let alphabet = [PairOp::Good, PairOp::WrongShape, PairOp::ShortRow, PairOp::WrongRow];
@@ -278,6 +508,10 @@ pub fn cases_dbf(tier: &str, rng: &mut Rng, stats: &mut Stats, out: &mut Out) {
     }
     for n in [0usize, 1, 2, 5] {
         let id = out.oracle_only_id();
-        out.verdict(&id, &format!("path-pairs {}", n), oracle_c08_path(n));
+        out.verdict(&id, &format!("scenario path-pairs {}", n), oracle_c08_path(n));
+    }
+    for (a, b) in [("parcels", "parcels.v2"), ("a.b.c", "a.b"), ("roads", "roads_2024.final"), ("x", "x.shp")] {
+        let id = out.oracle_only_id();
+        out.verdict(&id, &format!("scenario path-names {} {}", a, b), oracle_c08_path_names(a, b));
     }
 }
